@@ -799,6 +799,34 @@ class StmtNorm(object):
                     if isinstance(m, ast.Name):
                         stores[m.id] = stores.get(m.id, 0) + 5      # closures: hands off
         changed = [False]
+        # x = E; return x pairs per name (all loads of x must be such returns)
+        pairs = {}
+
+        def _ret_name(st):
+            if isinstance(st, ast.Return) and isinstance(st.value, ast.Name):
+                return st.value
+            if isinstance(st, ast.Raise) and isinstance(st.exc, ast.Call) and \
+                    (dotted(st.exc.func) or '').endswith('Return') and \
+                    len(st.exc.args) == 1 and isinstance(st.exc.args[0], ast.Name):
+                return st.exc.args[0]
+            return None
+
+        def count_pairs(stmts):
+            for a, b in zip(stmts, stmts[1:]):
+                rv_ = _ret_name(b)
+                if rv_ is not None and isinstance(a, ast.Assign) and len(a.targets) == 1 and \
+                        isinstance(a.targets[0], ast.Name) and a.targets[0].id == rv_.id:
+                    pairs[rv_.id] = pairs.get(rv_.id, 0) + 1
+            for st in stmts:
+                if isinstance(st, (ast.FunctionDef, ast.AsyncFunctionDef, ast.ClassDef)):
+                    continue
+                for field in ('body', 'orelse', 'finalbody'):
+                    v = getattr(st, field, None)
+                    if isinstance(v, list) and v and isinstance(v[0], ast.stmt):
+                        count_pairs(v)
+                for h in getattr(st, 'handlers', []) or []:
+                    count_pairs(h.body)
+        count_pairs(fnode.body)
 
         def once(name):
             return loads.get(name, 0) == 1 and stores.get(name, 0) == 1
@@ -832,6 +860,20 @@ class StmtNorm(object):
                     out.append(st)
                     changed[0] = True
                     self.bump('tuple-temp-forwarded')
+                    continue
+                # (3) x = E; return x  ->  return E        (also raise gen.Return(x))
+                rv = _ret_name(st)
+                if rv is not None and isinstance(prev, ast.Assign) and len(prev.targets) == 1 and \
+                        isinstance(prev.targets[0], ast.Name) and prev.targets[0].id == rv.id and \
+                        loads.get(rv.id, 0) == pairs.get(rv.id, 0) == stores.get(rv.id, 0):
+                    out.pop()
+                    if isinstance(st, ast.Return):
+                        st.value = prev.value
+                    else:
+                        st.exc.args[0] = prev.value
+                    out.append(st)
+                    changed[0] = True
+                    self.bump('return-temp-forwarded')
                     continue
                 # (2) copy of a value defined just before (only other copies in between)
                 if is_copy(st) and once(st.value.id):
